@@ -227,9 +227,6 @@ func runC23(t *testing.T, tp *simrt.Tape, keepTrace bool) hx.Result {
 					}
 				}
 				got := c.files()
-				if hasBranchesRepos(c.Q) {
-					got, own = stripBranches(got), stripBranches(own)
-				}
 				if limited || dupNames {
 					// under match limits a subset is returned; with same-named repositories the
 					// name-based reference for repository atoms is ambiguous: only isolation is judged
